@@ -1,6 +1,7 @@
 import SeqVerif.Base.Proto
 import SeqVerif.Model.Agg
 import SeqVerif.Extracted.C06
+import SeqVerif.Model.AggCodec
 /-!
 Driver for C06.  Encodings: SC = `min/max/sum/total/ne/samples`; bin = `mid@token@SC`; AS = `ne#bin;bin` (`ne#-` if
 no bins); value = `nan` | `n` | `n/d`; bucket = `mid@name@value@q,q@ne`.
@@ -112,6 +113,28 @@ def parsePostings (s : String) : Option (Option (List (List Nat))) :=
 
 def lookupMid (tbl : List (Nat × Nat)) (lid : Nat) : Nat := (tbl.lookup lid).getD 0
 
+def fmtPBBin (b : PBBin) : String := s!"{b.label}@{b.ts.1}@{b.ts.2}@{fmtSC b.hist}"
+
+def pbBinLe (a b : PBBin) : Bool :=
+  a.ts.1 < b.ts.1 || (a.ts.1 == b.ts.1 && (a.ts.2 < b.ts.2 || (a.ts.2 == b.ts.2 && a.label ≤ b.label)))
+
+def parsePBBin (s : String) : Option PBBin :=
+  match s.splitOn "@" with
+  | [l, sec, ns, c] => do pure ⟨l, (← sec.toInt?, ← ns.toInt?), ← parseSC c⟩
+  | _ => none
+
+def parsePBAgg (s : String) : Option PBAgg :=
+  match s.splitOn "#" with
+  | [ne, bs] => do pure ⟨← (splitList bs ";").mapM parsePBBin, ← ne.toNat?⟩
+  | _ => none
+
+def fmtTs : Option (Int × Int) → String
+  | none => "-"
+  | some ts => s!"{ts.1}.{ts.2}"
+
+def fmtApiBucket (b : ApiBucket) : String :=
+  s!"{b.key}@{fmtVal b.value}@{b.notExists}@{fmtList fmtVal b.quantiles}@{fmtTs b.ts}"
+
 def step (line : String) : String :=
   match fields line with
   | ["sc.ops", mode, ops] =>
@@ -128,6 +151,32 @@ def step (line : String) : String :=
         | none => "panic empty-quantiles"
       | none => "bad-op"
     | _, _, _, _ => "bad-op"
+  | ["pb.build", a] =>
+    match parseAS a with
+    | some a =>
+      let p := buildAgg a
+      s!"ok ne={p.notExists} ts={fmtList fmtPBBin (p.timeseries.mergeSort pbBinLe) ";"}"
+    | none => "bad-op"
+  | ["pb.toas", p] =>
+    match parsePBAgg p with
+    | some p => s!"ok {fmtAS (aggToAS p)}"
+    | none => "bad-op"
+  | ["api.agg", fn, qs, skip, a] =>
+    match parseFn fn, (splitList qs).mapM parseQ, bool? skip, parseAS a with
+    | some fn, some qs, some skip, some a =>
+      match aggregate fixed fn qs skip a with
+      | some r =>
+        let p := makeProtoAggregation r
+        s!"ok ne={p.2} {fmtList fmtApiBucket p.1 ";"}"
+      | none => "panic empty-quantiles"
+    | _, _, _, _ => "bad-op"
+  | ["api.hist", h] =>
+    match parseHist h with
+    | some h =>
+      let bs := (makeProtoHistogram h).mergeSort fun a b =>
+        a.2.1 < b.2.1 || (a.2.1 == b.2.1 && (a.2.2 < b.2.2 || (a.2.2 == b.2.2 && a.1 ≤ b.1)))
+      s!"ok {fmtList (fun (b : Nat × (Int × Int)) => s!"{b.1}@{b.2.1}@{b.2.2}") bs}"
+    | none => "bad-op"
   | ["hist.run", interval, mids] =>
     match interval.toNat?, natList? mids with
     | some i, some ms => s!"ok {fmtHist (histRun i ms)}"
